@@ -473,3 +473,19 @@ func (x *Exec) mapHas(st *State, m Val, k Val) string {
 	dom, _, _, _ := x.u.mapKeys(mt)
 	return fmt.Sprintf("(select (select %s %s) %s)", x.getHeap(st, dom), m.T, k.T)
 }
+
+// nsentKey: the ghost send counter of channels with the given element sort.
+func (x *Exec) nsentKey(elemSort string) string {
+	k := "chan.nsent." + sortId(elemSort)
+	x.u.regHeap(k, "(Array Int Int)")
+	return k
+}
+
+func (x *Exec) chanElemSort(t types.Type) string {
+	if t != nil {
+		if ct, ok := t.Underlying().(*types.Chan); ok {
+			return x.u.sortOf(ct.Elem())
+		}
+	}
+	return "Int"
+}
